@@ -1446,3 +1446,60 @@ impl Family for F11 {
         Case { u, p, tag: "F11".into() }
     }
 }
+
+/// F12 "soft reveals more candidates": lib has four versions; app=1 requires lib{A}, plugin=1 requires
+/// lib{B} for every pair of non-empty subsets A, B; lib is preferred newest-first or oldest-first; app
+/// is either the root requirement (soft list [plugin]) or itself the first soft requirement (root
+/// requires base, soft list [app, plugin]). The soft run of plugin reveals candidates of an already
+/// installed package that the solver has not seen before (new at-most-one clauses against decided
+/// helper variables).
+pub struct F12;
+
+impl Family for F12 {
+    fn name(&self) -> String {
+        "F12 soft requirement revealing further candidates of an installed package (lib x 4)".into()
+    }
+    fn len(&self) -> u64 {
+        15 * 15 * 2 * 2
+    }
+    fn get(&self, mut idx: u64) -> Case {
+        let mut take = |n: u64| {
+            let r = idx % n;
+            idx /= n;
+            r
+        };
+        let a_mask = take(15) + 1;
+        let b_mask = take(15) + 1;
+        let oldest_first = take(2) == 1;
+        let app_soft = take(2) == 1;
+        let mut u = Universe::default();
+        let base = u.add_name("base");
+        let app = u.add_name("app");
+        let lib = u.add_name("lib");
+        let plugin = u.add_name("plugin");
+        let base1 = u.add_solv(base, 1);
+        let app1 = u.add_solv(app, 1);
+        let libs: Vec<Id> = (1..=4).map(|v| u.add_solv(lib, v)).collect();
+        let plugin1 = u.add_solv(plugin, 1);
+        u.rerank_by_version(lib);
+        if oldest_first {
+            u.set_order(&libs);
+        }
+        let subset = |m: u64| -> Vec<Id> { (0..4).filter(|i| m & (1 << i) != 0).map(|i| libs[i]).collect() };
+        let base_all = u.add_vset(base, &[base1]);
+        let app_all = u.add_vset(app, &[app1]);
+        let va = u.add_vset(lib, &subset(a_mask));
+        let vb = u.vset(lib, &subset(b_mask));
+        u.solvs[app1 as usize].deps.push_req(Req::Single(va));
+        u.solvs[plugin1 as usize].deps.push_req(Req::Single(vb));
+        let mut p = Problem::default();
+        if app_soft {
+            p.reqs.push(Req::Single(base_all));
+            p.soft = vec![app1, plugin1];
+        } else {
+            p.reqs.push(Req::Single(app_all));
+            p.soft = vec![plugin1];
+        }
+        Case { u, p, tag: "F12".into() }
+    }
+}
